@@ -280,6 +280,15 @@ def gen_case(rng, op, twins=False):
         i = rng.randrange(len(args))
         args[i] = g_other_kind(rng, args[i])
         c["kind"] = "illtyped"
+    if op in ("Forall", "Exists", "SetRefinement", "Choose", "SetComprehension") and c["kind"] == "typed" and rng.random() < 0.15:
+        # a tuple-typed bound  <<x, y>> \\in S : the closure takes the components with ApplyFunction
+        pairs = [["T", [g_small(rng), g_small(rng)]] for _ in range(rng.randint(0, 4))]
+        if rng.random() < 0.2:
+            pairs.append(rng.choice([["T", [g_small(rng)]], g_small(rng), ["T", [g_str(rng), g_small(rng)]], ["F", [[["n", 1], g_small(rng)], [["n", 2], g_small(rng)]]]]))
+        c["args"] = args = [["S", pairs]]
+        c["fn"] = ["tupswap"] if op == "SetComprehension" else ["tuplt"]
+        c["kind"] = "tuplebound"
+        return c
     if op in ("Forall", "Exists"):
         c["fn"] = rng.choice(PREDS1 if len(args) == 1 else PREDS2)
     elif op in ("SetRefinement", "Choose"):
@@ -463,6 +472,9 @@ def run(ctx):
     ctx.extra["oracle_skipped"] = skipped
     ctx.samples = [{"op": c["op"], "args": c["args"], "fn": c.get("fn"), "go": c["_res"]} for c in cases[18:18 + 5]]
     tie(ctx, cases)
+    spec_tie(ctx, cases)
+    if ctx.tier == "thorough" and not ctx.replay:
+        tlc_crosscheck(ctx, cases)
     if ctx.replay:
         print("replay:", [(c["op"], c["_res"], classify(c, c["_res"])[:3]) for c in cases][:3], [b["what"] for b in ctx.breaks])
 
@@ -474,10 +486,10 @@ CALLS = {"Assert": "CAssert", "ToString": "CToString", "Eq": "CEq", "Neq": "CNeq
          "Cardinality": "CCardinality", "Len": "CLen", "Concat": "CConcat", "Append": "CAppend", "Head": "CHead", "Tail": "CTail", "SubSeq": "CSubSeq",
          "ColonGt": "CColonGt", "AtAt": "CAtAt", "Domain": "CDomain", "Apply": "CApply", "SelectElement": "CSelectElement", "MakeSet": "CMakeSet",
          "MakeTuple": "CMakeTuple", "MakeRecord": "CMakeRecord", "MakeRecordSet": "CMakeRecordSet", "MakeFunctionSet": "CMakeFunctionSet",
-         "CrossProduct": "CCrossProduct"}
-PCL = {"true": "PTrue", "false": "PFalse", "isnum": "PIsNum", "gt": "PGt", "eq": "PEq", "neq": "PNeq", "in": "PIn", "lt2": "PLt2", "eq2": "PEq2", "asbool": "PAsBool"}
-BCL = {"id": "BId", "const": "BConst", "tuple": "BTuple", "plus": "BPlus", "single": "BSingle", "isnum": "BIsNum", "mod": "BMod", "last": "BLast"}
-UNMODELLED = {"Seq", "SelectSeq"}
+         "CrossProduct": "CCrossProduct", "Seq": "CSeq", "SelectSeq": "CSelectSeq"}
+PCL = {"true": "PTrue", "false": "PFalse", "isnum": "PIsNum", "gt": "PGt", "eq": "PEq", "neq": "PNeq", "in": "PIn", "lt2": "PLt2", "eq2": "PEq2", "asbool": "PAsBool", "tuplt": "PTupLt"}
+BCL = {"id": "BId", "const": "BConst", "tuple": "BTuple", "plus": "BPlus", "single": "BSingle", "isnum": "BIsNum", "mod": "BMod", "last": "BLast", "tupswap": "BTupSwap"}
+UNMODELLED = set()
 
 
 def coq_cl(table, cl):
@@ -540,6 +552,99 @@ def tie(ctx, cases):
             ctx.breaks.append({"what": "correspondence C03/Impl.v vs distsys/tla differs on %s" % c["op"],
                                "case": {k2: v for k2, v in c.items() if not k2.startswith("_")}, "impl": c["_res"], "model": out2.strip()[-800:]})
     ctx.extra["model_evaluated_cases"] = len(todo)
+
+
+def tlc_crosscheck(ctx, cases):
+    """thorough tier: the reference semantics (hence, through spec_tie, Base/Ops.v) against TLC itself"""
+    import c03_tlc, shutil
+    work = "/var/tmp/verif-%d-tlc" % os.getpid()
+    try:
+        pairs = [(c, c.get("_ref") or reference_outcome(c)) for c in cases if not too_big(c) and not infeasible(c)]
+        stats, bad = c03_tlc.crosscheck(pairs, work, max_values=4500, max_errors=240, workers=6)
+    finally:
+        shutil.rmtree(work, ignore_errors=True)
+    ctx.extra["tlc_crosscheck"] = stats
+    for b in bad[:20]:
+        ctx.breaks.append({"what": "TLC disagrees with the reference semantics on %s" % b["case"]["op"],
+                           "case": {k: v for k, v in b["case"].items() if not k.startswith("_")},
+                           "model": "reference: %s | TLA+: %s" % (b["reference"], b["tla"]), "impl": "TLC: " + b["tlc"]})
+
+
+def sem_to_wire(x):
+    """semantic value of lib/c03_sem.py -> wire value"""
+    t = x[0]
+    if t == "d":
+        return ["d"]
+    if t in ("b", "n", "s"):
+        return [t, x[1]]
+    if t == "S":
+        return ["S", [sem_to_wire(e) for e in x[1]]]
+    if t == "T":
+        return ["T", [sem_to_wire(e) for e in x[1]]]
+    if t == "F":
+        return ["F", [[sem_to_wire(k), sem_to_wire(v)] for k, v in x[1]]]
+    raise ValueError(x)
+
+
+def reference_outcome(c):
+    try:
+        return REF.apply(c["op"], c["args"], c.get("fn"), c.get("subs"))
+    except (S.Unknown, RecursionError) as e:
+        return ("unknown", str(e))
+
+
+def coq_pexp(spec):
+    k = spec[0]
+    if k == "ok":
+        return "(PVal %s %s)" % (V.coq_value(sem_to_wire(spec[1])), "true" if len(spec) > 2 and spec[2] else "false")
+    if k == "err":
+        return "PErr"
+    if k == "okstr":
+        return "PStr"
+    if k == "member":
+        return "(PMem %s)" % vlib.coq_list([V.coq_value(sem_to_wire(e)) for e in spec[1]])
+    if k == "infinite":
+        return "PInf"
+    return "PSkip"
+
+
+def spec_tie(ctx, cases):
+    """Base/Ops.v (through C03/SpecRun.v) evaluated by vm_compute on the cases and compared with the Python
+    reference: the spec side of the theorems is checked against an independent implementation of TLA+'s
+    semantics (which the thorough tier in turn checks against TLC itself)."""
+    if not ctx.coq_ok:
+        return
+    ok, log = vlib.coq_build_closure("C03/SpecRun.v")
+    if not ok:
+        ctx.breaks.append({"what": "C03/SpecRun.v does not compile", "detail": log[-1500:]})
+        return
+    from concurrent.futures import ThreadPoolExecutor
+    step = 1 if ctx.tier != "quick" or ctx.replay else 2
+    todo = [c for c in cases if not too_big(c) and not infeasible(c)][::step]
+    for c in todo:
+        c["_ref"] = reference_outcome(c)
+    shard = 400
+    parts = [todo[s:s + shard] for s in range(0, len(todo), shard)]
+
+    def ev(k):
+        body = ("From PGV Require Import C03.SpecRun.\nDefinition M := Eval vm_compute in spec_mismatches 0\n [" +
+                ";\n ".join("(%s, %s, %s)" % (coq_call(c), vlib.coq_list(["(build %s)" % V.coq_value(a) for a in c["args"]]), coq_pexp(c["_ref"]))
+                            for c in parts[k]) + "].\nPrint M.\n")
+        return (k,) + vlib.coq_eval("C03_spec_%d" % k, body)
+
+    with ThreadPoolExecutor(max_workers=4) as ex:
+        results = list(ex.map(ev, range(len(parts))))
+    for k, rc, out, err in results:
+        mm = vlib.parse_nat_list(out, "M") if rc == 0 else None
+        if mm is None:
+            ctx.breaks.append({"what": "spec evaluation C03_spec did not compile", "detail": (out + err)[-2000:]})
+            break
+        for i in mm:
+            c = parts[k][i]
+            ctx.breaks.append({"what": "Base/Ops.v and the Python reference semantics disagree on %s" % c["op"],
+                               "case": {k2: v for k2, v in c.items() if not k2.startswith("_")},
+                               "impl": c["_res"], "model": "reference: %s" % (str(c["_ref"])[:600])})
+    ctx.extra["spec_vs_reference_cases"] = len(todo)
 
 
 MANIFEST = {
